@@ -193,10 +193,9 @@ func (g *pqGen) call(d int) string {
 		g.hist("node:call:label_replace")
 		dst := pick(g.r, pqLabels)
 		if g.p(2) {
-			return fmt.Sprintf(`label_replace(%s, "%s", "$1", "%s", "(.*)")`, g.vec(d-1), dst, g.label())
-		}
-		if g.p(2) {
-			return fmt.Sprintf(`label_replace(%s, "%s", "", "%s", ".*")`, g.vec(d-1), dst, g.label())
+			// replacement x regex grid: a regex that matches every / some / no series, with and without a replacement
+			return fmt.Sprintf(`label_replace(%s, "%s", "%s", "%s", "%s")`, g.vec(d-1), dst,
+				pick(g.r, []string{"$1", "$1", "", "", "x"}), g.label(), pick(g.r, []string{"(.*)", "(.*)", "(1)", "(2)", "(nomatch)", ".*"}))
 		}
 		return fmt.Sprintf(`label_join(%s, "%s", "-", "%s", "%s")`, g.vec(d-1), dst, g.label(), g.label())
 	case 12, 13:
@@ -607,6 +606,27 @@ func pqSystematicAlways() []string {
 	} {
 		for _, op := range []string{"and", "*", "unless"} {
 			out = append(out, fmt.Sprintf("%s %s %s", lr[0], op, lr[1]), fmt.Sprintf("%s %s %s", lr[1], op, lr[0]))
+		}
+	}
+	// S9: label_replace / label_join: destination existing or new x replacement empty / constant / captured x regex matching
+	// every, some or no series (a series whose source label does not match keeps its labels untouched)
+	for _, v := range []string{"foo", "sum by(a, b) (foo)", "sum(foo)"} {
+		for _, dst := range []string{"a", "d"} {
+			for _, repl := range []string{"", "$1", "x"} {
+				for _, re := range []string{"(.*)", "(1)", "(nomatch)"} {
+					out = append(out, fmt.Sprintf(`label_replace(%s, "%s", "%s", "b", "%s")`, v, dst, repl, re))
+				}
+			}
+			out = append(out, fmt.Sprintf(`label_join(%s, "%s", "", "c")`, v, dst), fmt.Sprintf(`label_join(%s, "%s", "-", "b", "c")`, v, dst),
+				fmt.Sprintf(`label_join(%s, "%s", "")`, v, dst))
+		}
+	}
+	// S10: vector/vector operations nested as an operand of a join: what the inner operation does to the labels the outer
+	// matching needs (on(l) / ignoring(l) of set operators keep the left-hand series untouched; arithmetic does not)
+	for _, inner := range []string{"foo and ignoring(a) bar", "foo or ignoring(a) bar", "foo unless ignoring(a) bar", "foo * ignoring(a) bar",
+		"foo and on(a) bar", "foo or on(a) bar", "foo unless on(b) bar", "foo * on(a) bar"} {
+		for _, outer := range []string{"* on(a)", "and on(a)", "* ignoring(b)"} {
+			out = append(out, fmt.Sprintf("baz %s (%s)", outer, inner), fmt.Sprintf("(%s) %s baz", inner, outer))
 		}
 	}
 	// S7: absent()/absent_over_time() over dead, always-returning and ordinary operands, bare and as the deciding
